@@ -634,6 +634,8 @@ type C03OrderOp struct {
 	DupInTx  bool   `json:"dup"`    // eth multi: repeat the first nonce instead of consecutive ones
 	Replay   int    `json:"replay"` // >0: re-submit the (Replay-1 mod len)-th earlier tx bytes instead of a new tx
 	NewBlock bool   `json:"new_block"`
+	Mixed    bool   `json:"mixed"`  // eth multi: messages alternate between the two signers (each with its own nonce)
+	Create   int    `json:"create"` // eth multi: 1-based index of the message that is a contract creation (0 = none)
 }
 
 type C03OrderCase struct {
@@ -654,6 +656,10 @@ func genC03Order(t *rapid.T) C03OrderCase {
 			op.Replay = 1 + rapid.IntRange(0, 20).Draw(t, "replay-idx")
 		}
 		op.NewBlock = rapid.IntRange(0, 2).Draw(t, "newblock") == 0
+		op.Mixed = rapid.IntRange(0, 3).Draw(t, "mixed") == 0
+		if rapid.IntRange(0, 3).Draw(t, "create") == 0 {
+			op.Create = 1 + rapid.IntRange(0, 2).Draw(t, "create-idx")
+		}
 		c.Ops = append(c.Ops, op)
 	}
 	return c
@@ -679,11 +685,17 @@ func runC03Order(st *ev.Stats, c C03OrderCase) string {
 			n.EndBlockCommit()
 			n.BeginBlock(chain.BlockIn{})
 		}
+		// the per-op expectations below are deltas; the counters themselves are re-read so that a tx that legitimately
+		// executed for the other signer (mixed or replayed bytes) does not desynchronise later nonce choices
+		for sg := range signers {
+			_, model[sg] = txb.AccInfo(n.Ctx(), n.App, signers[sg].Addr)
+		}
 		a := signers[op.Signer]
 		cur := model[op.Signer]
 		var bz []byte
 		wantOK := false
 		var inc uint64
+		multiSender := map[int]uint64{}
 		signer := op.Signer
 		if op.Replay > 0 && len(history) > 0 {
 			h := history[(op.Replay-1)%len(history)]
@@ -706,19 +718,39 @@ func runC03Order(st *ev.Stats, c C03OrderCase) string {
 					typ = 2
 				}
 				var txs []*ethtypes.Transaction
+				incs := map[int]uint64{} // signer -> messages of that signer in this tx
+				allCurrent := true
 				for k := 0; k < op.NEth; k++ {
-					nk := nonce + uint64(k)
-					if op.DupInTx {
-						nk = nonce
+					sg := op.Signer
+					if op.Mixed && k%2 == 1 {
+						sg = 1 - op.Signer
 					}
+					base := model[sg]
+					if sg == op.Signer {
+						base = nonce // the drawn offset applies to the main signer
+					}
+					nk := base + incs[sg]
+					if op.DupInTx && sg == op.Signer {
+						nk = base
+						if incs[sg] > 0 {
+							allCurrent = false
+						}
+					}
+					incs[sg]++
 					to := recv.Hex
-					txs = append(txs, txb.SignEth(a, txb.Eth{Type: typ, ChainID: big.NewInt(11235), Nonce: nk, To: &to, Value: big.NewInt(int64(i + 1)), Gas: 50000, GasPrice: price, FeeCap: price, TipCap: big.NewInt(1)}))
+					e := txb.Eth{Type: typ, ChainID: big.NewInt(11235), Nonce: nk, To: &to, Value: big.NewInt(int64(i + 1)), Gas: 50000, GasPrice: price, FeeCap: price, TipCap: big.NewInt(1)}
+					if op.Create == k+1 {
+						e.To, e.Value, e.Gas, e.Data = nil, big.NewInt(0), 200000, []byte{0x60, 0x00, 0x60, 0x00, 0xf3} // init code returning empty runtime
+					}
+					txs = append(txs, txb.SignEth(signers[sg], e))
 				}
+				multiSender = incs
+				_ = allCurrent
 				var err error
 				bz, err = txb.WrapEth(txs...)
 				must(err)
-				wantOK = op.Off == 0 && (!op.DupInTx || op.NEth == 1)
-				inc = uint64(op.NEth)
+				wantOK = op.Off == 0 && (!op.DupInTx || multiSender[op.Signer] == 1)
+				inc = multiSender[op.Signer]
 			default:
 				num, _ := txb.AccInfo(n.Ctx(), n.App, a.Addr)
 				cb := txb.Cosmos{Msgs: []sdk.Msg{banktypes.NewMsgSend(a.Addr, recv.Addr, sdk.NewCoins(sdk.NewCoin(chain.Denom, sdkmath.NewInt(int64(i+1)))))},
@@ -771,6 +803,16 @@ func runC03Order(st *ev.Stats, c C03OrderCase) string {
 			model[signer] = seqAfter
 			executedOnce[c03key(n, string(bz))] = true
 			accepted++
+			for sg, cnt := range multiSender {
+				if sg == signer {
+					continue
+				}
+				_, sq := txb.AccInfo(n.Ctx(), n.App, signers[sg].Addr)
+				if sq != model[sg]+cnt {
+					return fail("sequence-not-consumed:order:"+op.Kind, fmt.Sprintf("op %d %+v: the tx executed %d message(s) of signer %d but its sequence went %d -> %d", i, op, cnt, sg, model[sg], sq))
+				}
+				model[sg] = sq
+			}
 		} else if seqAfter != seqBefore || res.Code == 0 {
 			return fail("wrong-sequence-accepted:order:"+op.Kind, fmt.Sprintf("op %d %+v: tx for sequence %+d was executed: seq %d -> %d code %d", i, op, op.Off, seqBefore, seqAfter, res.Code))
 		}
